@@ -316,6 +316,7 @@ PROPS = {
         "assumptions": ["sync.RWMutex is a correct mutex", "channel operations are atomic steps"],
     },
     "C15": {
+        "model_is_the_property": True,
         "streams": ["recorder"],
         "rule": "recorder: every call sequence of length <= 2 (thorough: 3) over a 23-call alphabet (four increments incl. an out-of-range histogram value, three gauge setters, zero-valued "
                 "arguments of all of them, Begin/"
